@@ -111,6 +111,18 @@ reg(
     "DESIGN.md §3 C18",
 )
 
+reg(
+    "C20",
+    "exploration",
+    "Hypothesis-drawn parameter tuples with the whole 0..32768 input axis enumerated per tuple; containment + monotonicity oracle from the YAML ranges; enumeration of macro-helper targets",
+    "The macro helper is called for every (type, controller) target (thorough) and for generated multi-target / 17-target / duplicate-module "
+    "calls. For generated (target, window, gain, quantization, curve) tuples a MultiCtl is linked inside a project and every input value "
+    "0..32768 is assigned; each delivered value must lie in the target's declared range and the sequence must be monotone in the window's "
+    "orientation; a link with an unset mapping must leave its target untouched. convert_value is checked directly on 20x more tuples.",
+    "Ranges from the YAML; unit-dependent targets are outside the claim; compact windows within 0..max-min.",
+    "DESIGN.md §3 C20",
+)
+
 NOT_APPLICABLE = {}
 
 ALL = ["C%02d" % i for i in range(1, 21)]
